@@ -370,31 +370,31 @@ func (workingMem *WorkingMemory) ResetVariable(variable *Variable) bool {
 	return reseted
 }
 
-// ResetElement resets what an assignment to the slice element or map entry `element` can have made stale: the nodes
-// that read this element, and the nodes that read an element of the same container through a selector that may denote
-// the same element. Two different literal selectors (Arr[0] and Arr[1], M["a"] and M["b"]) never do; any other pair may
-// (Arr[Idx] and Arr[0]).
+// ResetAssigned resets what an assignment to the variable `assigned` can have made stale: the nodes that read this
+// variable, and the nodes that read a variable whose access path may denote the same location. Paths are compared
+// component by component: a member and a literal string key are the same component (o.k and o["k"]), two different
+// literal selectors never meet (Arr[0] and Arr[1], M["a"] and M["b"]), a computed selector may denote any element
+// (Arr[Idx] and Arr[0], Items[Idx].Price and Items[0].Price).
 // Returns true if any expression was reset, false if otherwise
-func (workingMem *WorkingMemory) ResetElement(element *Variable) bool {
-	reseted := workingMem.ResetVariable(element)
-	if element.Variable == nil || element.ArrayMapSelector == nil {
-
-		return reseted
-	}
-	container := element.Variable.GetSnapshot()
+func (workingMem *WorkingMemory) ResetAssigned(assigned *Variable) bool {
+	reseted := workingMem.ResetVariable(assigned)
+	path := assigned.accessPath()
 	for _, other := range workingMem.variableSnapshotMap {
-		if other == element || other.Variable == nil || other.ArrayMapSelector == nil {
+		if other == assigned || !pathsMayMeet(path, other.accessPath()) {
 			continue
 		}
-		if other.ArrayMapSelector.isLiteral() && element.ArrayMapSelector.isLiteral() {
-			continue
-		}
-		if other.Variable.GetSnapshot() == container && workingMem.ResetVariable(other) {
+		if workingMem.ResetVariable(other) {
 			reseted = true
 		}
 	}
 
 	return reseted
+}
+
+// ResetElement is ResetAssigned for a slice element or map entry.
+func (workingMem *WorkingMemory) ResetElement(element *Variable) bool {
+
+	return workingMem.ResetAssigned(element)
 }
 
 // ResetAll sets all expression evaluated status to false.
